@@ -212,6 +212,14 @@ func MarshalEncode(out *jsontext.Encoder, in any, opts ...Options) (err error) {
 				return newMarshalErrorBefore(out, reflect.TypeOf(in), errChangingInvalidUTF8)
 			}
 		}
+		if optsOriginal.Flags.Get(jsonflags.AllowDuplicateNames) && !xe.Struct.Flags.Get(jsonflags.AllowDuplicateNames) {
+			// The enclosing JSON object (if any) was begun without tracking
+			// its names, so it has no namespace that could be consulted
+			// should anything be written past the value of this call.
+			if k, _ := out.StackIndex(out.StackDepth()); k == '{' {
+				xe.Tokens.Last.DisableNamespace()
+			}
+		}
 		if xe.Struct.Flags.Has(jsonflags.AnyWhitespace) {
 			if xe.Struct.Flags.Get(jsonflags.Multiline) {
 				xe.Struct.InitializeMultiline()
@@ -440,6 +448,14 @@ func UnmarshalDecode(in *jsontext.Decoder, out any, opts ...Options) (err error)
 			}
 			if optsOriginal.Flags.Get(jsonflags.AllowInvalidUTF8) != xd.Struct.Flags.Get(jsonflags.AllowInvalidUTF8) {
 				return newUnmarshalErrorBefore(in, reflect.TypeOf(out), errChangingInvalidUTF8)
+			}
+		}
+		if optsOriginal.Flags.Get(jsonflags.AllowDuplicateNames) && !xd.Struct.Flags.Get(jsonflags.AllowDuplicateNames) {
+			// The enclosing JSON object (if any) was begun without tracking
+			// its names, so it has no namespace that could be consulted
+			// should anything be read past the value of this call.
+			if k, _ := in.StackIndex(in.StackDepth()); k == '{' {
+				xd.Tokens.Last.DisableNamespace()
 			}
 		}
 	}
